@@ -872,11 +872,13 @@ mod os {
             }
             posix::reset_sigpipe()?;
 
-            if let Some(uid) = setuid {
-                posix::setuid(uid)?;
-            }
+            // Change the group before the user: once the user ID has been
+            // dropped, the process is no longer privileged to change its group.
             if let Some(gid) = setgid {
                 posix::setgid(gid)?;
+            }
+            if let Some(uid) = setuid {
+                posix::setuid(uid)?;
             }
             if setpgid {
                 posix::setpgid(0, 0)?;
